@@ -191,3 +191,30 @@ unit(id="array.recreate", src="src/instruction/array.rs", path=[("impl", "Recrea
           f"{_RSEQ.format(f='instructions')} is Err ==> r == Err::<Instruction, ExecError>({_RSEQ.format(f='instructions')}->Err_0)"),
          ("array.recreate.elements_recreated_left_to_right", ["C04"], f"{RS9} == rseq_st(self.instructions@, {RS0}, 0)"),
      ])
+
+# ---------------------------------------------------------------- [value; len]: semantic layer --------
+for _u in _v.UNITS:
+    if _u["id"] == "arrayrepeat.exec":
+        _u.setdefault("fragments", [])
+        for _f in ("opspecs", "semantics"):
+            if _f not in _u["fragments"]:
+                _u["fragments"].append(_f)
+        _u["ensures"].append(("arrayrepeat.exec.is_the_semantic_function_arrayrepeat_res", ["C04", "C07"],
+                              f"r is Ok ==> r->Ok_0 is Array && arrayrepeat_res(*self, {S0}) is Ok "
+                              f"&& r->Ok_0->Array_0.elems@ =~= arrayrepeat_res(*self, {S0})->Ok_0->Array_0.elems@"))
+        _u["ensures"].append(("arrayrepeat.exec.errors_and_state_are_those_of_the_semantic_function", ["C04", "C07"],
+                              f"(r is Err ==> r == arrayrepeat_res(*self, {S0})) && (arrayrepeat_res(*self, {S0}) is Err ==> r is Err) "
+                              f"&& {S9} == arrayrepeat_st(*self, {S0})"))
+    if _u["id"] == "arrayrepeat.create_from_instructions":
+        for _f in ("opspecs", "semantics"):
+            if _f not in _u.setdefault("fragments", []):
+                _u["fragments"].append(_f)
+        _u["broadcast"] = ["sem_axioms::sem", "sem_axioms4::sem4"]
+        _AR = "ArrayRepeat { value, len }"
+        _u["ensures"].append(("arrayrepeat.fold.unobservable", ["C04", "C07"],
+                              f"r is Ok ==> (forall|s: int| (#[trigger] eval_res(r->Ok_0, s) == arrayrepeat_res({_AR}, s)) "
+                              f"|| (eval_res(r->Ok_0, s) is Ok && arrayrepeat_res({_AR}, s) is Ok && eval_res(r->Ok_0, s)->Ok_0 is Array "
+                              f"&& eval_res(r->Ok_0, s)->Ok_0->Array_0.elems@ =~= arrayrepeat_res({_AR}, s)->Ok_0->Array_0.elems@)) "
+                              f"&& (forall|s: int| #[trigger] eval_st(r->Ok_0, s) == arrayrepeat_st({_AR}, s))"))
+        _u["ensures"].append(("arrayrepeat.fold.early_error_only_if_every_evaluation_fails", ["C04"],
+                              f"r is Err ==> (forall|s: int| #[trigger] arrayrepeat_res({_AR}, s) is Err)"))
